@@ -38,6 +38,9 @@ pub fn failure_traits(cfg: &crate::gen::config::Cfg, input: &[u8]) -> Vec<String
     if crate::gen::text::has_multichar_cluster(&s) {
         v.push("multi-char-cluster".to_string());
     }
+    if s.chars().any(|c| !c.is_control() && unicode_width::UnicodeWidthChar::width(c) == Some(0)) {
+        v.push("zero-width-char".to_string());
+    }
     if cfg.has("side-by-side") {
         v.push("side-by-side".to_string());
     }
